@@ -65,7 +65,7 @@ def r1_typestate(run):
                       "apply_policy dominates construct on normal paths",
                       fi.loc(stmt))
         else:
-            via = [cfg.nodes[i].text() for i in p
+            via = [cfg.nodes[i].ctext() for i in p
                    if cfg.nodes[i].kind in ("true", "false") and any(
                        set(apply_ids) & cfg.reachable_from(sib, avoid=exc_nodes)
                        for sib in cfg.succ[cfg.nodes[i].test] if sib != i)]
@@ -132,9 +132,25 @@ def r2_commit_shape(run):
         return
     ava = rs[0].targets[0].id
     loops = [n for n in walk_no_nested(fi.node) if isinstance(n, ast.For)]
-    ok = len(loops) == 1 and "self.items()" in unparse(loops[0].iter)
-    run.check(ok, "R2", fi.qual + "::loop", "iterates over all own items",
-              "loop over self.items() vanished", fi.loc())
+    # all own keys, over a snapshot (the loop deletes): list(self.items()),
+    # list(self.keys()), list(self), tuple(...)/sorted(...) of those
+    def own_keys(it):
+        if isinstance(it, ast.Call) and call_name(it) in ("list", "tuple",
+                                                          "sorted") and \
+                len(it.args) == 1:
+            inner = unparse(it.args[0])
+            if inner == "self.items()":
+                return "items"
+            if inner in ("self.keys()", "self"):
+                return "keys"
+        return None
+    kind = own_keys(loops[0].iter) if len(loops) == 1 else None
+    ok = kind is not None and (isinstance(loops[0].target, ast.Tuple) ==
+                               (kind == "items"))
+    run.check(ok, "R2", fi.qual + "::loop", "iterates over a snapshot of all "
+              "own keys", "the loop over all own items vanished (or no longer "
+              "iterates over a snapshot): %s" %
+              [unparse(l.iter) for l in loops], fi.loc())
     if not ok:
         return
     lp = loops[0]
@@ -146,10 +162,8 @@ def r2_commit_shape(run):
             and unparse(nd.ast.targets[0]) == "self[%s]" % key]
     want_in = "%s in %s" % (key, ava)
     ok_set = len(sets) == 1 and unparse(sets[0].ast.value) == "%s[%s]" % (
-        ava, key) and (want_in, True) in {
-        (unparse(e), p) for e, p, _ in cfg.guards(sets[0].id)}
-    ok_del = len(dels) == 1 and (want_in, False) in {
-        (unparse(e), p) for e, p, _ in cfg.guards(dels[0].id)}
+        ava, key) and Q(want_in, True) in facts(cfg, sets[0].id)
+    ok_del = len(dels) == 1 and Q(want_in, False) in facts(cfg, dels[0].id)
     run.check(ok_set, "R2", fi.qual + "::keep-arm",
               "key in ava => self[key] = ava[key]",
               "kept keys are not given the filtered values: %s" %
@@ -290,8 +304,10 @@ def r4_policy_filter(run):
                   sorted(a.text for a in got), fi.loc(c))
     # attribute restrictions applied whenever present
     defs = [nd for nd in cfg.by_kind("stmt") if isinstance(nd.ast, ast.Assign)
-            and unparse(nd.ast.targets[0]) == "_rest" and
-            "get_attribute_restrictions" in unparse(nd.ast.value)]
+            and isinstance(nd.ast.targets[0], ast.Name) and
+            isinstance(nd.ast.value, ast.Call) and
+            call_name(nd.ast.value) == "get_attribute_restrictions"]
+    rname = defs[0].ast.targets[0].id if defs else None
     key = fi.qual + "::attribute_restrictions-always-applied"
     if len(defs) != 1:
         run.violated("R4", key, "attribute restrictions are no longer fetched",
@@ -300,14 +316,16 @@ def r4_policy_filter(run):
         d = defs[0]
         checks = [nd.id for nd, c in cfg.call_nodes(
             "filter_attribute_value_assertions")
-            if cfg.dominates(d.id, nd.id) and unparse(arg_of(c, 1)) == "_rest"]
+            if cfg.dominates(d.id, nd.id) and
+            unparse(arg_of(c, 1, "attribute_restrictions")) == rname and
+            {x.node for x in cfg.rd.reaching(rname, nd.id)} == {d.id}]
         if not checks:
             run.violated("R4", key, "configured attribute_restrictions are not "
                          "applied", fi.loc(d.ast))
         else:
             rets = [r.id for r in cfg.by_kind("return")]
             wit = unguarded_path(cfg, d.id, rets, checks,
-                                 lambda e, p: unparse(e) == "_rest" and p is False)
+                                 lambda e, p: unparse(e) == rname and p is False)
             run.check(wit is None, "R4", key,
                       "every path with restrictions passes the value filter "
                       "last", "a path returns without applying configured "
